@@ -47,9 +47,9 @@ def fit_t0(t2E_dict, fit_range, plot_fit=False, observable='t0'):
     if zero_crossing == 0:
         raise Exception('Desired flow time not in data')
 
-    x = list(t2E_dict.keys())[zero_crossing - fit_range:
+    x = list(t2E_dict.keys())[max(0, zero_crossing - fit_range):
                               zero_crossing + fit_range]
-    y = list(t2E_dict.values())[zero_crossing - fit_range:
+    y = list(t2E_dict.values())[max(0, zero_crossing - fit_range):
                                 zero_crossing + fit_range]
     [o.gamma_method() for o in y]
 
